@@ -5,6 +5,7 @@ import (
 	"encoding/json"
 	"errors"
 	"fmt"
+	"io"
 
 	"github.com/vipnode/vipnode/v2/internal/verifapi"
 )
@@ -26,6 +27,13 @@ func (c *verifChanCodec) ReadMessage() (*Message, error) {
 func (c *verifChanCodec) WriteMessage(m *Message) error { c.written++; c.out <- m; return nil }
 func (c *verifChanCodec) Close() error                  { return nil }
 func (c *verifChanCodec) RemoteAddr() string            { return c.addr }
+
+// verifDuplex is one end of a connection made of two pipes.
+type verifDuplex struct {
+	io.Reader
+	io.Writer
+	io.Closer
+}
 
 // verifEcho is a Handler: "echo" returns its argument; "callback" calls
 // "echo" on the connection the request arrived on and returns that result.
@@ -83,6 +91,12 @@ func verifPair() (*Remote, *Remote, *verifEcho, *verifEcho) {
 		a.Client = nil // as the client binary builds its connection to the pool
 	}
 	b := &Remote{Codec: &verifChanCodec{in: ab, out: ba, addr: "b"}, Client: &Client{}, Server: hb}
+	if verifapi.Param("iocodec", 0) == 1 {
+		// the library's own stream codec (IOCodec) on both ends, over two in-process pipes
+		pab, pba := verifapi.NewPipe(), verifapi.NewPipe()
+		a.Codec = IOCodec(verifDuplex{pba, pab, pab})
+		b.Codec = IOCodec(verifDuplex{pab, pba, pba})
+	}
 	ha.self, hb.self = a, b
 	go a.Serve()
 	go b.Serve()
